@@ -39,6 +39,10 @@ typedef struct lltd_iface_state {
 
 static lltd_iface_state *g_iface_states = NULL;
 
+#ifdef D3VI1_LLTDRESPONDER_VERIF
+#include "lltdBlock_contracts.h" /* verification-only function contracts; never defined in a normal build */
+#endif
+
 #define log_debug(...) lltd_port_log_debug(__VA_ARGS__)
 #define log_warning(...) lltd_port_log_warning(__VA_ARGS__)
 #define log_err(...) lltd_port_log_warning(__VA_ARGS__)
